@@ -86,6 +86,7 @@ extern "C" void sk_attach(int cfd, int pfd)
 }
 extern "C" void sk_detach_client() { client_fd = -1; registered = 0; }
 extern "C" void sk_set_outcome(int kind, long k) { out_kind = kind; out_k = k; }
+extern "C" void sk_get_outcome(int* kind, long* k) { *kind = out_kind; *k = out_k; }
 extern "C" void sk_arm_event(int mode, unsigned native) { ev_mode = mode; ev_native = native; phase = 0; last_real_valid = 0; }
 extern "C" void sk_disarm_event() { ev_mode = SK_EV_OFF; phase = 2; }
 
